@@ -1,4 +1,4 @@
-import CV.Proofs.HuffSpec
+import CV.Proofs.HuffOptMain
 /-!
 # C15 — Huffman codebooks are prefix-free, complete, optimal and mutually consistent
 
@@ -185,4 +185,81 @@ theorem independent_of_weight_type (h : Admissible wb ws) :
     · rfl
     · exact decLoop_wb_irrelevant wb _ _ _ _ hno
 
+/-! ## Optimality -/
+
+/-- the full optimality statement: for every admissible weight list, the code emitted through
+the encoder array has minimum total weighted length `Σ_s w_s · |codeword_s|` among **all**
+prefix-free assignments of bit strings to the symbols `0 … n-1` — in particular among the
+root-to-leaf codes of all binary trees with these leaves. -/
+def HuffmanOptimal : Prop :=
+  ∀ (wb : Option Nat) (ws : List Nat) (en : List Nat), Admissible wb ws → encTree wb ws = .ok en →
+    ∀ c : Nat → List Bool, PrefixFree ws.length c → codeCost ws en ≤ assignCost ws c
+
+/-- optimality among all code trees (full binary or not) on the same alphabet -/
+theorem optimal_among_trees (h : Admissible wb ws) (hen : encTree wb ws = .ok en)
+    {U : Tree} (hU : U.IsCodeTree ws.length) : codeCost ws en ≤ U.wcost ws := by
+  obtain ⟨en', dn', T, he, _, hT, B⟩ := admissible_build h
+  rw [hen] at he; injection he with he; subst he
+  rw [B.codeCost_eq]
+  exact huffTree_optimal h.1 hT hU
+
+/-- **optimality** (the classical exchange argument: sibling lemma + induction over the merge
+loop, after Blanchette's Isabelle proof), closed in full: `HuffmanOptimal` holds. -/
+theorem huffman_optimal : HuffmanOptimal := by
+  intro wb ws en h hen c hc
+  obtain ⟨en', dn', T, he, _, hT, B⟩ := admissible_build h
+  rw [hen] at he; injection he with he; subst he
+  rw [B.codeCost_eq]
+  exact huffTree_optimal_codes h.1 hT hc
+
+/-- the cost the theorems speak about is that of the emitted codewords and, equivalently, the
+weighted path length of the common tree of `same_tree` -/
+theorem cost_is_tree_cost (h : Admissible wb ws) (hen : encTree wb ws = .ok en) :
+    ∃ T : Tree, huffTree ws = some T ∧ T.IsCodeTree ws.length ∧ codeCost ws en = T.wcost ws := by
+  obtain ⟨en', dn', T, he, _, hT, B⟩ := admissible_build h
+  rw [hen] at he; injection he with he; subst he
+  exact ⟨T, hT, B.leaves, B.codeCost_eq⟩
+
+/-! ## Non-vacuity: concrete instances satisfy the hypotheses -/
+
+example : Admissible (some 32) [2, 2, 4, 1, 1] := by
+  refine ⟨by decide, by decide, ?_⟩; simp [WeightsFit]
+example : Admissible none [1, 1, 1] := ⟨by decide, by decide, trivial⟩
+example : Admissible (some 8) [0] := by
+  refine ⟨by decide, by decide, ?_⟩; simp [WeightsFit]
+example : encTree (some 32) [2, 2, 4, 1, 1] = .ok [12, 13, 15, 10, 11, 14, 16, 17, 0] := by rfl
+example : decTree (some 32) [2, 2, 4, 1, 1] = .ok [(3, 4), (0, 1), (5, 2), (6, 7)] := by rfl
+example : encodePrefix [12, 13, 15, 10, 11, 14, 16, 17, 0] 4 = .ok [true, false, true] := by rfl
+example : encodeSuffix [12, 13, 15, 10, 11, 14, 16, 17, 0] 3 = .ok [false, false, true] := by rfl
+example : decode [(3, 4), (0, 1), (5, 2), (6, 7)] [some true, some false, some true, none] =
+    .ok (4, [none]) := by rfl
+example : codeCost [2, 2, 4, 1, 1] [12, 13, 15, 10, 11, 14, 16, 17, 0] = 22 := by rfl
+/-- ties are broken by index: `[1, 1]` gives symbol 0 the bit 0 -/
+example : encTree (some 32) [1, 1] = .ok [4, 5, 0] := by rfl
+example : PrefixFree 2 (fun s => if s = 0 then [false] else [true]) := by
+  intro s1 s2 h1 h2 hp
+  have : s1 = 0 ∨ s1 = 1 := by omega
+  have : s2 = 0 ∨ s2 = 1 := by omega
+  rcases ‹s1 = 0 ∨ s1 = 1› with rfl | rfl <;> rcases ‹s2 = 0 ∨ s2 = 1› with rfl | rfl <;>
+    simp_all
+example : (Tree.node 9 (.leaf 0) (.node 8 (.leaf 2) (.leaf 1))).IsCodeTree 3 := by
+  unfold Tree.IsCodeTree
+  decide
+
 end CV.Huff.C15
+
+#print axioms CV.Huff.C15.constructors_ok
+#print axioms CV.Huff.C15.same_tree
+#print axioms CV.Huff.C15.prefix_eq_reverse_suffix
+#print axioms CV.Huff.C15.decode_prefix
+#print axioms CV.Huff.C15.decode_sound
+#print axioms CV.Huff.C15.decode_truncated
+#print axioms CV.Huff.C15.prefix_free
+#print axioms CV.Huff.C15.kraft_equality
+#print axioms CV.Huff.C15.single_symbol
+#print axioms CV.Huff.C15.out_of_alphabet
+#print axioms CV.Huff.C15.ties_by_index
+#print axioms CV.Huff.C15.independent_of_weight_type
+#print axioms CV.Huff.C15.optimal_among_trees
+#print axioms CV.Huff.C15.huffman_optimal
+#print axioms CV.Huff.C15.cost_is_tree_cost
